@@ -107,6 +107,16 @@ CHECKS = {
              "decided - the larger part of the property. Single-thread semantics for the two relaxed stores.",
         technique="contract-based deductive verification: verbatim extraction + Kani contract harnesses (CBMC), all flag states",
     ),
+    "C12": dict(
+        category="proof",
+        text="Source-location arithmetic (crates/steel-parser/src/span.rs) under Verus with contracts injected at the real signatures: new/double/"
+             "merge build exactly the stated fields, width cannot underflow on well-formed spans, and coalesce_span returns the tight hull of ANY "
+             "number of spans (inductive loop invariant, no bound) - so a derived location lies inside the text whenever its parts do.",
+        design_ref="DESIGN.md section 3, C12",
+        note="Only the Span kernel of the property. Totality of the lexer/parser on arbitrary text, lexer-produced spans, and the write/read round trip are "
+             "not decided in this revision (string-level reasoning is outside Verus' subset and costs minutes per 3 bytes in CBMC).",
+        technique="contract-based deductive verification: verbatim extraction + Verus (Z3) with requires/ensures and a loop invariant",
+    ),
 }
 
 NOT_APPLICABLE = {
